@@ -686,6 +686,10 @@ func (g *gen) thread(ti, nops int) []Op {
 		default:
 			ops = append(ops, Op{K: "thrs", Ety: t, V: int64(r.Intn(2))})
 		}
+		// idempotent repeats: the identical call once more right away (remove twice, the same definition / node / threshold again)
+		if r.Chance(1, 8) {
+			ops = append(ops, ops[len(ops)-1])
+		}
 	}
 	return ops
 }
